@@ -10,6 +10,11 @@ is compared with `build_hank` of the bound data for every ordered reference list
 around and above 2**12 .. 2**17 samples, where an implementation may switch to another way of assembling the
 same sums): the same loop construction / projection identity on a small lattice of lengths at both sides of
 each power of two, methods x integer/float record types, and `SSIResult.H` after runs on such records.
+Ill-conditioned (full-rank) past reference data for the data-driven method: designed integer-valued records whose
+reference channels are nearly redundant / nearly delayed copies of each other / dominated by a large common component,
+the small component being 2**-k of the large one (cond(Yp) = O(1) * 2**k up to about 1e7), judged by the same Gram
+identity with the same tolerance against the projection evaluated in exact rational arithmetic (a float reference
+computed from the normal equations is itself only good to eps*cond(Yp)**2), through `build_hank` and through a run.
 
 What the statement leaves open is left open here:
   * the sign convention of the lag (only: the same in every block of one matrix),
@@ -31,17 +36,22 @@ TECHNIQUE = ("exhaustive evaluation of the bilinear map on a complete basis (all
              "shape in the stated range, oracle on every value; exhaustive pair-sum/scaling bilinearity on the smallest "
              "shapes; lattice of larger shapes against an independent loop construction and the projection Gram identity; "
              "SSIResult.H after real runs over every ordered reference list; long records (lengths at both sides of "
-             "2**12..2**17 and multiples) against the same loop construction / projection identity")
+             "2**12..2**17 and multiples) against the same loop construction / projection identity; designed "
+             "ill-conditioned past reference data (three families x conditioning levels) against the projection "
+             "evaluated in exact rational arithmetic")
 LEVEL_TEXT = ("bounded-exhaustive: inside the stated shape range the covariance-method map is decided completely (a "
               "bilinear map is fixed by its values on a basis, and bilinearity is checked exhaustively on the smallest "
               "shapes); outside it, and for the data-driven method, a finite lattice around a payload alphabet, "
               "including a lattice of long records (number of averaged products 2**k-1 .. 2**k+2 for k in 12..17, "
-              "5000, 20000, 70001 and 3*2**16+50 samples; 1..3 channels, br 1..3)")
+              "5000, 20000, 70001 and 3*2**16+50 samples; 1..3 channels, br 1..3) and a lattice of ill-conditioned "
+              "full-rank reference data for the data-driven method (3 families x small/large component ratio 2**-k, "
+              "k in 0..20, i.e. cond(Yp) from ~1e1 to ~1e7, x 4 shapes x 2 record lengths x float/int64 records x "
+              "build_hank / SSIdat.run)")
 RULE = ("basis part: one case = (channels l, references r, block rows br, record length, method, channel a, "
         "reference b, impulse-time difference s-t); non-trivial iff |s-t| equals the lag of at least one block, so "
         "that the prescribed matrix is non-zero; cases differing only in the absolute impulse time are NOT counted "
         "as distinct. Other parts: one case = one lattice point (part, shape, method, variant); all are non-trivial "
-        "(dense payload records)")
+        "(dense payload records); ill-conditioned part: one case = (lattice point, record form, route)")
 ASSUMPTIONS = [
     "numpy dot/solve/cond are the reference operations (trusted)",
     "the sign of the lag, the averaging window and the normalisation are not fixed by the statement: any consistent "
@@ -53,6 +63,18 @@ ASSUMPTIONS = [
     "3*2**16+50), with 1..3 channels and br 1..3, as coloured (first-order recursive) mixed payload records held as "
     "float64, int16 or int32; lengths between the lattice points and above 3*2**16+50 (thorough: 2**18+2**16-1) are not "
     "explored; a seam within 2*br+4 samples of the end of a record is invisible (the records vanish there)",
+    "ill-conditioned past reference data (data-driven method) are explored on designed records only: reference channels "
+    "= large component + 2**-k x independent small components (nearly redundant references; a reference that is nearly "
+    "a delayed copy of another; a large component common to all references), k in {0, 7, 14, 17, 20} (thorough: 11 levels "
+    "up to 20), so that cond(Yp) = O(1) * 2**k - controlled by construction and measured from the singular values of the "
+    "designed Yp, never from library output; coloured payload signals rounded to integers, records with more samples than "
+    "stacked rows, zero in the first and last 2*br+4 samples (hence no constant offset: a large DC level is represented "
+    "by the large common component). Python integer / Fraction arithmetic is exact (trusted), the reference Gram matrix "
+    "is rounded once to float64. Cases with cond(Yp) > 5e7 are skipped by a ground-truth guard (none in the lattice) and "
+    "levels above 2**20 (cond(Yp) above ~1.5e7) are not explored: there the error of a backward-stable factorisation of "
+    "the data, ~eps*cond(Yp) (measured on the library: up to 9e-11 at level 2**-20, 1.6e-10 at 2**-21, 2.4e-10 at cond 6e7, "
+    "1.2e-9 at 4e8), approaches the tolerance 1e-9 of the Gram identity, which is not loosened; rank-deficient "
+    "reference data are outside the statement (the projection is not unique)",
 ]
 
 TOL_EXACT = 1e-12
@@ -478,6 +500,184 @@ def dat_config(item):
 
 
 # ------------------------------------------------------------------------------------------------
+# part 5: the projection identity on ill-conditioned (full-rank) past reference data, exact reference
+
+COND_FAMILIES = ("near-redundant-references", "reference-nearly-delayed-copy", "large-common-component")
+COND_VARIANTS = ("refs-are-first-channels", "refs-are-last-channels-reversed")
+COND_FORMS = ("float64", "int64")
+COND_ROUTES = ("build_hank", "SSIdat.run")
+COND_YP_MAX = 5e7          # ground-truth guard: cond(Yp) of the designed record (see ASSUMPTIONS)
+COND_AMPL = 1000
+
+
+def cond_records(seed, fam, k, l, r, br, Nd, variant):
+    """Integer-valued record (l x Nd, int64) whose r reference channels make the stacked past reference matrix Yp
+    ill-conditioned in a controlled way, and the row indices of the reference channels (in reference order).
+
+    S[0..l+r] are independent coloured payload signals (y[n] = 0.7 y[n-1] + x[n]) rounded to integers of rms COND_AMPL.
+    With sc = 2**k:
+      near-redundant-references     ref 0 = sc*S0,            ref b = sc*S0 + S_b            (b >= 1)
+      reference-nearly-delayed-copy ref 0 = sc*S0,            ref b = sc*(S0 delayed by b samples) + S_b
+      large-common-component        ref b = sc*S_r + S_b      (every b)
+    so the large component spans (br+1) (delayed copy: br+r) directions of Yp with singular values ~ sc*COND_AMPL*sqrt(N)
+    and the remaining directions have singular values ~ COND_AMPL*sqrt(N): cond(Yp) = O(1) * 2**k, by construction (and
+    measured from the record by an SVD of Yp in cond_projection_gram). The other channels are sc*(S_small + S_own): they
+    see the small component, so the projection of the future onto the weak directions matters.
+    The record is zero in the first and last 2*br+4 samples; dividing it by sc gives the same record on a binary grid
+    (exact in float64), with the large component of rms COND_AMPL and the small one of rms COND_AMPL * 2**-k."""
+    from scipy.signal import lfilter
+
+    m = 2 * br + 4
+    n = Nd - 2 * m
+    x = payload.normal(seed, f"c12/cond/{fam}/{l}/{r}/{br}/{Nd}", (l + r + 1, n))
+    S = np.round(COND_AMPL * lfilter([1.0], [1.0, -0.7], x, axis=1) * (1 - 0.49) ** 0.5).astype(np.int64)
+    sc = 2 ** k
+    if fam == "near-redundant-references":
+        refs = [S[0] * sc] + [S[0] * sc + S[b] for b in range(1, r)]
+    elif fam == "reference-nearly-delayed-copy":
+        s0 = S[0].copy()
+        s0[n - (r - 1):] = 0                    # so that every delayed copy lies inside the non-zero part of the record
+        refs = [s0 * sc] + [np.concatenate([np.zeros(b, dtype=np.int64), s0[:n - b]]) * sc + S[b] for b in range(1, r)]
+    elif fam == "large-common-component":
+        refs = [S[r] * sc + S[b] for b in range(r)]
+    else:
+        raise ValueError(fam)
+    others = [(S[1 + a % max(1, r - 1)] + S[r + 1 + a]) * sc for a in range(l - r)]
+    Y = np.zeros((l, Nd), dtype=np.int64)
+    if variant == "refs-are-first-channels":
+        Y[:, m:Nd - m] = np.array(refs + others)
+        ref_ind = list(range(r))
+    else:
+        Y[:, m:Nd - m] = np.array(others + refs[::-1])
+        ref_ind = list(range(l - 1, l - 1 - r, -1))
+    return Y, ref_ind
+
+
+def cond_projection_gram(Yi, Yri, br):
+    """Yf Yp^T (Yp Yp^T)^-1 Yp Yf^T of integer-valued records in exact rational arithmetic (python ints, one Fraction
+    per entry), rounded once to float64; and cond(Yp) from the singular values of Yp (the ground-truth
+    conditioning of the case). Yf / Yp as in dat_config: every u for which all samples exist."""
+    from fractions import Fraction
+
+    Nd = Yi.shape[1]
+    nb = br + 1
+    us = np.arange(br, Nd - br - 1)
+    Yf = np.vstack([Yi[:, us + 1 + i] for i in range(nb)])
+    Yp = np.vstack([Yri[:, us - j] for j in range(nb)])
+    sv = np.linalg.svd(Yp.astype(float), compute_uv=False)
+    cond = float(sv[0] / sv[-1]) if sv[-1] > 0 else float("inf")
+    if not cond <= 1e12:
+        return None, cond
+    Yfo, Ypo = Yf.astype(object), Yp.astype(object)
+    Gpp = Ypo.dot(Ypo.T)
+    Gfp = Yfo.dot(Ypo.T)
+    m, nf = Gpp.shape[0], Gfp.shape[0]
+    # fraction-free Gauss-Jordan elimination on python ints (every division is exact): Yp Yp^T is positive definite for
+    # full-rank Yp, so every pivot (a leading principal minor) is positive; the left block ends as det * identity and the
+    # right block as adj(Yp Yp^T) Yp Yf^T
+    M = [[int(Gpp[i, j]) for j in range(m)] + [int(Gfp[a, i]) for a in range(nf)] for i in range(m)]
+    prev = 1
+    for c in range(m):
+        pc = M[c]
+        pv = pc[c]
+        if pv <= 0:
+            return None, float("inf")
+        for q in range(m):
+            if q != c:
+                row = M[q]
+                f = row[c]
+                M[q] = [(pv * v - f * w) // prev for v, w in zip(row, pc)]
+        prev = pv
+    det = prev
+    if not all(M[i][j] == (det if i == j else 0) for i in range(m) for j in range(m)):
+        raise AssertionError("exact elimination did not end with det * identity")
+    G = np.empty((nf, nf))
+    for a in range(nf):
+        ga = [int(Gfp[a, q]) for q in range(m)]
+        for b in range(a, nf):
+            G[a, b] = G[b, a] = float(Fraction(sum(ga[q] * M[q][m + b] for q in range(m)), det))
+    return G, cond
+
+
+def cond_config(item):
+    """One designed ill-conditioned record: both record forms (values on a binary grid held as float64; the same counts
+    held as int64) x both routes (build_hank; SSIResult.H after SSIdat.run), each judged by the Gram identity with the
+    tolerance of dat_config against the exact projection."""
+    seed, cfg = item
+    idx, fam, k, l, r, br, Nd, variant = cfg
+    t = Tally()
+    t.states = 1
+    case = {"part": "cond", "cfg": list(cfg), "seed": seed}
+    nb = br + 1
+    Yint, ref_ind = cond_records(seed, fam, k, l, r, br, Nd, variant)
+    Gint, cond = cond_projection_gram(Yint, Yint[ref_ind], br)
+    t.err("cond:cond(Yp)", cond)
+    if Gint is None or not cond <= COND_YP_MAX:
+        t.skipped_by_guard += len(COND_FORMS) * len(COND_ROUTES)
+        t.outcomes["cond:guard:cond(Yp)-above-5e7"] += 1
+        return t
+    t.outcomes[f"cond:records:cond(Yp)-decade-1e{int(np.floor(np.log10(cond)))}"] += 1
+    t.outcomes["cond:records:cond(Yp)-at-least-2**level" if cond >= 2.0 ** k else "cond:records:cond(Yp)-below-2**level"] += 1
+    # (shape only) more samples than stacked rows, the usual situation of a measurement
+    t.outcomes["cond:records:more-samples-than-stacked-rows" if Nd - 2 * br - 2 > (l + r) * nb else "cond:records:fewer-samples-than-stacked-rows"] += 1
+    for form in COND_FORMS:
+        if form == "float64":
+            Y = Yint / float(2 ** k)
+            G = Gint / float(4 ** k)
+            if not np.array_equal(Y * float(2 ** k), Yint):
+                raise AssertionError("designed record is not exact on the binary grid")
+        else:
+            Y, G = Yint.copy(), Gint
+        for route in COND_ROUTES:
+            try:
+                if route == "build_hank":
+                    H = _hank(Y, Y[ref_ind], br, "dat")
+                else:
+                    from pyoma2.algorithms import SSIdat
+                    from pyoma2.setup import SingleSetup
+
+                    ss = SingleSetup(np.ascontiguousarray(Y.T), fs=10.0)
+                    alg = SSIdat(name="a", br=br, ordmax=2, method="dat", ref_ind=list(ref_ind))
+                    ss.add_algorithms(alg)
+                    ss.run_by_name("a")
+                    H = np.asarray(alg.result.H)
+            except Exception as e:
+                t.evaluations += 1
+                t.violation(f"raises:{type(e).__name__}:cond:{route}",
+                            f"{route} raised {type(e).__name__}: {e} on a full-rank record with cond(Yp)={cond:.3g} ({fam}, level 2**-{k}, "
+                            f"l={l} ref_ind={ref_ind} br={br} Ndat={Nd}, {form})", case)
+                continue
+            t.evaluations += 1
+            t.transitions += 1
+            t.validated += 1
+            t.nontrivial.add(("cond", idx, form, route))
+            t.outcomes[f"cond:records-as-{form}"] += 1
+            what = f"dat via {route}: {fam}, small component 2**-{k} of the large one, cond(Yp)={cond:.3g}, l={l} ref_ind={ref_ind} br={br} Ndat={Nd}, {form} record"
+            if H.shape != (nb * l, nb * r):
+                t.violation(f"cond:dat:shape:{route}", f"{what}: shape {H.shape} instead of (br+1)*l x (br+1)*r = {(nb * l, nb * r)}", case)
+                continue
+            HH = H @ H.T
+            c = float(np.sum(HH * G) / np.sum(G * G))
+            res = float(np.max(np.abs(HH - c * G)) / (abs(c) * np.max(np.abs(G)) or 1.0))
+            t.err(f"cond:dat:gram-residual:level-2**-{k}", res)
+            t.err("cond:dat:|1-scale*Ndat|", abs(1 - c * Nd))
+            if not res <= TOL_GRAM:
+                t.violation(f"cond:dat:gram:{route}",
+                            f"{what}: H H^T is not a multiple of the Gram matrix of the orthogonal projection of the future on the past "
+                            f"reference outputs, Yf Yp^T (Yp Yp^T)^-1 Yp Yf^T evaluated exactly (relative residual {res:.3g} with the best scale {c:.4g})", case)
+            elif not (c > 0 and 0.5 <= c * Nd <= 2.0):
+                t.violation(f"cond:dat:normalisation:{route}", f"{what}: Gram scale {c!r} (x Ndat = {c * Nd:.4g}) is not that of 1/sqrt(N)-scaled data matrices", case)
+            else:
+                t.outcomes[f"cond:gram-equal:{route}"] += 1
+                t.outcomes[f"cond:gram-equal:{fam}:level-2**-{k}"] += 1
+                t.outcomes["cond:gram-equal:cond(Yp)" + ("<1e2" if cond < 1e2 else ">=1e6" if cond >= 1e6 else ">=1e4" if cond >= 1e4 else ">=1e2")] += 1
+                if idx % 7 == 0 and form == "float64":
+                    t.sample({"part": "cond", "family": fam, "level": f"2**-{k}", "cond(Yp)": cond, "l": l, "ref_ind": ref_ind, "br": br, "Ndat": Nd,
+                              "route": route, "gram_residual": res, "scale_x_Ndat": c * Nd})
+    return t
+
+
+# ------------------------------------------------------------------------------------------------
 # part 4: SSIResult.H after a run
 
 def run_config(item):
@@ -651,7 +851,31 @@ def run_lattice(thorough):
     return out
 
 
+COND_SHAPES = ((2, 2, 1), (3, 2, 2), (4, 3, 3), (3, 2, 5))                 # (channels, references, br)
+COND_SHAPES_THOROUGH = COND_SHAPES + ((3, 3, 1), (4, 2, 3), (5, 3, 2), (2, 2, 8))
+
+
+def cond_levels(thorough):
+    """k: the small component of the reference channels is 2**-k of the large one; cond(Yp) = O(1) * 2**k (about 3..15 x 2**k)."""
+    return (0, 4, 7, 10, 12, 14, 16, 17, 18, 19, 20) if thorough else (0, 7, 14, 17, 20)
+
+
+def cond_lattice(thorough):
+    """family x level x shape x record length (all with more samples than stacked rows); the placement of the reference
+    channels rotates with the point. The thorough lattice contains every quick point (same records)."""
+    out = []
+    for fam in COND_FAMILIES:
+        for k in cond_levels(thorough):
+            for s, (l, r, br) in enumerate(COND_SHAPES_THOROUGH if thorough else COND_SHAPES):
+                for e, extra in enumerate((40, 300, 120, 1000) if thorough else (40, 300)):
+                    Nd = 2 * (2 * br + 4) + 2 * (br + 1) * (l + r) + extra
+                    variant = COND_VARIANTS[(COND_FAMILIES.index(fam) + k + s + e) % 2]
+                    out.append((len(out), fam, k, l, r, br, Nd, variant))
+    return out
+
+
 def explore(ctx):
+    condl = cond_lattice(ctx.thorough)
     basis = basis_lattice(ctx.thorough)
     bilin = bilin_lattice(ctx.thorough)
     loop = padded_lattice(ctx.thorough, ("cov_mm", "cov_R"))
@@ -678,12 +902,23 @@ def explore(ctx):
                          "record_types": list(LONG_DTYPES), "record_lengths": sorted({c[4] for c in longc + longd}),
                          "judged_by": "loop construction (cov_mm, cov_R) / projection Gram identity (dat), as the shorter records",
                          "rotation": "one point per (length, method, variant); shape and record type rotate with them"},
+        "dat_projection_ill_conditioned": {
+            "points": len(condl), "families": list(COND_FAMILIES),
+            "levels(small component = 2**-k of the large one; cond(Yp) = O(1)*2**k)": [f"2**-{k}" for k in cond_levels(ctx.thorough)],
+            "shapes(channels, references, br)": [list(x) for x in (COND_SHAPES_THOROUGH if ctx.thorough else COND_SHAPES)],
+            "record_lengths": sorted({c[6] for c in condl}), "reference_placement": list(COND_VARIANTS) + ["rotating with the point"],
+            "record_forms": list(COND_FORMS), "routes": list(COND_ROUTES),
+            "evaluations_per_point": len(COND_FORMS) * len(COND_ROUTES),
+            "judged_by": "Gram identity against the projection evaluated in exact rational arithmetic, tolerance of the dat part (1e-9)",
+            "guard": f"cond(Yp) <= {COND_YP_MAX:g} (singular values of the designed Yp)"},
     }
     # biggest shapes first (one item = one shape = up to 25 600 library calls)
     ctx.pmap(basis_config, sorted(basis, key=lambda c: -(c[1] * c[2] * c[4] ** 2)), chunksize=1)
     ctx.pmap(bilin_config, sorted(bilin, key=lambda c: -(c[1] * c[2]) ** 2 * c[4] ** 3), chunksize=1)
     ctx.pmap(padded_cov_config, [(ctx.seed, c) for c in loop], chunksize=4)
     ctx.pmap(dat_config, [(ctx.seed, c) for c in dat], chunksize=4)
+    # ill-conditioned past reference data, costliest exact reference first
+    ctx.pmap(cond_config, [(ctx.seed, c) for c in sorted(condl, key=lambda c: -(c[3] + c[4]) * c[4] * (c[5] + 1) ** 2 * c[6])], chunksize=1)
     ctx.pmap(run_config, [(ctx.seed, c) for c in runs], chunksize=4)
     # long records, longest first
     ctx.pmap(padded_cov_config, [(ctx.seed, c) for c in sorted(longc, key=lambda c: -c[4] * c[1])], chunksize=1)
@@ -698,6 +933,12 @@ def explore(ctx):
                 *[f"long:records:{m}:products-{side}-2**{k}" for m in LONG_METHODS for k in (12, 16, 17) for side in ("below", "at", "above")],
                 *[f"long:records:{m}:products-other" for m in LONG_METHODS],
                 *[f"long:records-as-{d}:{m}" for m in LONG_METHODS for d in LONG_DTYPES])
+    # the ill-conditioned region was really explored: every family judged equal at every level, by both routes and record
+    # forms, with ground-truth cond(Yp) in each band up to >= 1e6, and on records with more samples than stacked rows
+    ctx.require(*[f"cond:gram-equal:{f}:level-2**-{k}" for f in COND_FAMILIES for k in cond_levels(ctx.thorough)],
+                *[f"cond:gram-equal:{rt}" for rt in COND_ROUTES], *[f"cond:records-as-{f}" for f in COND_FORMS],
+                "cond:gram-equal:cond(Yp)<1e2", "cond:gram-equal:cond(Yp)>=1e2", "cond:gram-equal:cond(Yp)>=1e4", "cond:gram-equal:cond(Yp)>=1e6",
+                "cond:records:cond(Yp)-at-least-2**level", "cond:records:more-samples-than-stacked-rows")
     for m in ("cov_mm", "cov_R"):
         if not any(k.startswith(f"long:loop:equal:{m}") for k in ctx.tally.outcomes):
             ctx.require(f"long:loop:equal:{m}")
@@ -718,6 +959,8 @@ def replay(case):
         return padded_cov_config((case["seed"], tuple(cfg)))
     if part == "dat":
         return dat_config((case["seed"], tuple(cfg)))
+    if part == "cond":
+        return cond_config((case["seed"], tuple(cfg)))
     if part == "run":
         c = list(cfg)
         return run_config((case["seed"], tuple(c)))
